@@ -101,17 +101,31 @@ def run(rep: Report, prog: Program, tier: str) -> None:
     G, E = cfgs(prog), engine(prog)
 
     rep.rule("R19.1", "totality: no operation of the built-in classifiers can raise; every path returns an ErrorClass")
-    funcs = {
-        "redress.classify:_classify": {"err": frozenset({X}), "use_name_heuristics": frozenset({B})},
-        "redress.classify:default_classifier": {"err": frozenset({X})},
-        "redress.classify:strict_classifier": {"err": frozenset({X})},
-        "redress.extras.http:_coerce_status": {"exc": frozenset({X})},
-        "redress.extras.http:http_classifier": {"exc": frozenset({X})},
-        "redress.extras.sqlstate:_extract_sqlstate": {},
-        "redress.extras.sqlstate:sqlstate_classifier": {"exc": frozenset({X})},
-        "redress.extras.pyodbc:_extract_sqlstate": {},
-        "redress.extras.pyodbc:pyodbc_classifier": {"exc": frozenset({X})},
-    }
+    roots = [
+        "redress.classify:default_classifier", "redress.classify:strict_classifier", "redress.extras.http:http_classifier",
+        "redress.extras.sqlstate:sqlstate_classifier", "redress.extras.pyodbc:pyodbc_classifier",
+    ]
+    funcs: dict[str, dict] = {}
+    todo = [prog.func(r) for r in roots]
+    while todo:
+        f = todo.pop()
+        if f.qual in funcs:
+            continue
+        dom = {}
+        for prm in f.params():
+            if prm.arg in ("err", "exc"):
+                dom[prm.arg] = frozenset({X})
+            if prm.arg == "use_name_heuristics":
+                dom[prm.arg] = frozenset({B})
+        funcs[f.qual] = dom
+        for n in prog._own_nodes(f.node):
+            if isinstance(n, ast.Call):
+                for t in prog.resolve_call(n, f):
+                    if t.kind == "repo" and t.func is not None and t.func.module.name in ("redress.classify", "redress.extras.http", "redress.extras.sqlstate", "redress.extras.pyodbc"):
+                        todo.append(t.func)
+    for need in ("redress.classify:_classify", "redress.extras.http:_coerce_status"):
+        if need not in funcs:
+            raise AnalysisError(f"anchor vanished from the classifiers' call graph: {need}")
     n_ops = 0
     allpaths: dict[str, list[SymPath]] = {}
     for q, dom in funcs.items():
@@ -129,7 +143,7 @@ def run(rep: Report, prog: Program, tier: str) -> None:
         if "classifier" in q or q.endswith("_classify"):
             for p in paths:
                 rep.instance("R19.1", f"{q.split(':')[1]}|returns|{show(p.exit[1])[:40] if len(p.exit) > 1 else p.exit}")
-                if p.exit[0] == "return" and result_class(p.exit[1]) is not None:
+                if p.exit[0] == "return" and (result_class(p.exit[1]) is not None or table_of_classes(prog, fi, p.exit[1])):
                     rep.ok("R19.1")
                 else:
                     rep.fail("R19.1", f"{q.split(':')[1]}|not-an-ErrorClass", f"{q}: a path ends with {p.exit[0]} {show(p.exit[1]) if len(p.exit) > 1 else ''} instead of returning an ErrorClass", where=fi.where(), function=q, path=p.describe())
@@ -163,6 +177,23 @@ def run(rep: Report, prog: Program, tier: str) -> None:
         rep.ok("R19.2")
     else:
         rep.fail("R19.2", "_classify|code-source", f"_classify reads the numeric code from {show(codeterm)}; documented: err.status or err.code", where=fi.where(), function=q)
+    def global_dict(t):
+        """('global', 'mod:NAME') bound to a dict literal of constants -> python dict of terms"""
+        if not (isinstance(t, tuple) and t[0] == "global" and ":" in t[1]):
+            return None
+        mod, name = t[1].split(":", 1)
+        m = prog.modules.get(mod)
+        val = m.assigns.get(name) if m is not None else None
+        if not isinstance(val, ast.Dict):
+            return None
+        out = {}
+        for k, v in zip(val.keys, val.values):
+            if not isinstance(k, ast.Constant):
+                return None
+            ec = prog.enum_const(v, fi)
+            out[k.value] = ("enum", ec[0], ec[1]) if ec else ("const", getattr(v, "value", None))
+        return out
+
     bad = set()
     marker_vals = [None] + list(MARKERS)
     for marker, code, heur in itertools.product(marker_vals, [None] + CODES, (False, True)):
@@ -187,6 +218,17 @@ def run(rep: Report, prog: Program, tier: str) -> None:
                     return a < b
                 if t[0] == "cmp" and t[1] == "in" and t[3] == nameterm and t[2][0] == "const":
                     return t[2][1] in combo
+                if t[0] == "pure" and t[1] == ".get" and len(t[2]) >= 2:
+                    d = global_dict(t[2][0])
+                    if d is not None:
+                        k = evaluate(t[2][1], leaf)
+                        if k in d and type(k) is not bool:
+                            return d[k]
+                        return evaluate(t[2][2], leaf) if len(t[2]) > 2 else None
+                if t[0] == "cmp" and t[1] == "in" and t[3][0] == "global":
+                    d = global_dict(t[3])
+                    if d is not None:
+                        return evaluate(t[2], leaf) in d
                 raise CannotEval()
 
             fp = []
@@ -215,7 +257,18 @@ def run(rep: Report, prog: Program, tier: str) -> None:
                         if any(s in combo for s in subs):
                             want = cls
                             break
-            got = sorted({result_class(p.exit[1]) if p is not None and p.exit[0] == "return" else "?" for p in fp})
+            def final_class(p):
+                if p is None or p.exit[0] != "return":
+                    return "?"
+                rc = result_class(p.exit[1])
+                if rc is None:
+                    try:
+                        rc = result_class(evaluate(p.exit[1], leaf))
+                    except CannotEval:
+                        rc = None
+                return str(rc)
+
+            got = sorted({final_class(p) for p in fp})
             if got == [want]:
                 rep.ok("R19.2")
             else:
@@ -351,6 +404,54 @@ def run(rep: Report, prog: Program, tier: str) -> None:
         rep.ok("R19.3")
     rep.floor("R19.3", 30 + 2 * len(SQLSTATES))
 
+    # ------------------------------------------------------------------ R19.6 SQLSTATE extraction
+    rep.rule("R19.6", "SQLSTATE extraction: pyodbc_classifier takes the code from the sqlstate attribute or a *bracketed* 5-character [0-9A-Z] token of a string argument; sqlstate_classifier from the attribute or a free-standing (word-bounded) token - decided on the regex AST of the extractor each classifier actually calls")
+    want_shape = {
+        "redress.extras.pyodbc:pyodbc_classifier": "lit:[ group:5-5:[0-9,A-Z] lit:]",
+        "redress.extras.sqlstate:sqlstate_classifier": "boundary group:5-5:[0-9,A-Z] boundary",
+    }
+    for cq, shape in want_shape.items():
+        cf = prog.func(cq)
+        extractors = set()
+        for n in prog._own_nodes(cf.node):
+            if isinstance(n, ast.Call):
+                for t in prog.resolve_call(n, cf):
+                    if t.kind == "repo" and t.func is not None and "extract" in t.func.name:
+                        extractors.add(t.func)
+        rep.instance("R19.6", f"{cq.split(':')[1]}|extractor", {"extractors": sorted(f.qual for f in extractors)})
+        if len(extractors) != 1:
+            rep.fail("R19.6", f"{cq.split(':')[1]}|extractor-count", f"{cq} calls {len(extractors)} SQLSTATE extractors ({sorted(f.qual for f in extractors)})", where=cf.where(), function=cq)
+            continue
+        rep.ok("R19.6")
+        ef = next(iter(extractors))
+        pats = []
+        for n in prog._own_nodes(ef.node):
+            if isinstance(n, ast.Attribute) and n.attr in ("search", "match", "findall") and isinstance(n.value, ast.Name):
+                val = ef.module.assigns.get(n.value.id)
+                if val is None:
+                    k, pp = prog.lookup_name(n.value.id, ef, ef.module)
+                    if k == "assign":
+                        val = pp[1]
+                if isinstance(val, ast.Call) and val.args and isinstance(val.args[0], ast.Constant) and isinstance(val.args[0].value, str):
+                    pats.append((n.attr, val.args[0].value))
+        rep.instance("R19.6", f"{cq.split(':')[1]}|regex", {"extractor": ef.qual, "patterns": pats})
+        if len(pats) != 1 or pats[0][0] != "search":
+            rep.fail("R19.6", f"{cq.split(':')[1]}|regex-use", f"{ef.qual}: expected one `<compiled regex>.search(arg)`; found {pats}", where=ef.where(), function=ef.qual)
+            continue
+        got_shape = regex_shape(pats[0][1])
+        if got_shape == shape:
+            rep.ok("R19.6")
+        else:
+            rep.fail("R19.6", f"{cq.split(':')[1]}|regex-shape|{got_shape[:50]}", f"{cq} extracts the SQLSTATE with /{pats[0][1]}/ (shape: {got_shape}); documented shape: {shape}", where=ef.where(), function=ef.qual)
+        # group(1) of the first matching str argument, attribute first
+        okattr = any(isinstance(n, ast.Call) and isinstance(n.func, ast.Name) and n.func.id == "getattr" and len(n.args) >= 2 and isinstance(n.args[1], ast.Constant) and n.args[1].value == "sqlstate" for n in prog._own_nodes(cf.node))
+        rep.instance("R19.6", f"{cq.split(':')[1]}|attribute-first")
+        if okattr:
+            rep.ok("R19.6")
+        else:
+            rep.fail("R19.6", f"{cq.split(':')[1]}|attribute-first", f"{cq} no longer consults the `sqlstate` attribute first", where=cf.where(), function=cq)
+    rep.floor("R19.6", 6)
+
     # ------------------------------------------------------------------ R19.4
     rep.rule("R19.4", "strict never looks at names: every path of _classify that reads the exception's type name has use_name_heuristics true; strict_classifier passes False, default_classifier True")
     q = "redress.classify:_classify"
@@ -406,6 +507,45 @@ def run(rep: Report, prog: Program, tier: str) -> None:
         if n < 2:
             raise AnalysisError(f"{q}: guarded import not found")
     rep.floor("R19.5", 10)
+
+
+def table_of_classes(prog: Program, fi, t) -> bool:
+    """a value looked up (and tested not None on this path) in a module-level dict whose values are all ErrorClass members"""
+    if not (isinstance(t, tuple) and t[0] == "pure" and t[1] == ".get" and t[2] and t[2][0][0] == "global" and ":" in t[2][0][1]):
+        return False
+    mod, name = t[2][0][1].split(":", 1)
+    m = prog.modules.get(mod)
+    val = m.assigns.get(name) if m is not None else None
+    return isinstance(val, ast.Dict) and all(prog.enum_const(v, fi) is not None and prog.enum_const(v, fi)[0] == "ErrorClass" for v in val.values)
+
+
+def regex_shape(pattern: str) -> str:
+    """coarse semantic signature of a SQLSTATE extraction regex (via the regex AST)"""
+    import re._parser as sre  # type: ignore[import-not-found]
+
+    tree = sre.parse(pattern)
+    items = list(tree)
+    sig = []
+    for op, av in items:
+        name = str(op)
+        if name == "AT":
+            sig.append("boundary")
+        elif name == "LITERAL":
+            sig.append(f"lit:{chr(av)}")
+        elif name == "SUBPATTERN":
+            inner = list(av[3])
+            if len(inner) == 1 and str(inner[0][0]) == "MAX_REPEAT":
+                lo, hi, body = inner[0][1]
+                b = list(body)
+                cls = ""
+                if len(b) == 1 and str(b[0][0]) == "IN":
+                    cls = ",".join(f"{chr(x[1][0])}-{chr(x[1][1])}" for x in b[0][1] if str(x[0]) == "RANGE")
+                sig.append(f"group:{lo}-{hi}:[{cls}]")
+            else:
+                sig.append("group:?")
+        else:
+            sig.append(name.lower())
+    return " ".join(sig)
 
 
 def name_combos():
